@@ -1,14 +1,9 @@
-// Command signer reads the facts the C16 proofs are stated about off the current heimdall source and prints
-// them as a Lean module (HeimdallModel/Gen/Signer.lean):
-//
-//   - the synchronisation events of every method of jwtSigner (lock / unlock / deferred unlock / receiver field
-//     reads and writes with the exact source of the written value / receiver calls / control structure / returns),
-//   - the claim program of jwtSigner.Sign: the merge of the custom claims and the assignments to the claims map in
-//     source order, each with the source of its value, local definitions resolved,
-//   - how Sign builds the JOSE signer (signing key, header options),
-//   - the assignments of jwtSigner.load that select the active entry and build the published list,
-//   - the fields of the composite literal returned by keystore.Entry.JWK, the key size -> algorithm tables, the
-//     sizes keystore.Entry.CheckJOSESupport accepts and the statements of keystore.SelectKey.
+// Command signer reads the synchronisation protocol of jwtSigner off the current heimdall source and prints it as
+// a Lean module (HeimdallModel/Gen/Signer.lean): for every method of the type the ordered events lock / unlock /
+// deferred unlock of its mutex, reads and writes of its fields, control structure and returns. A call of another
+// method of the signer is inlined at the call site, so that a method split into helpers shows the same events as
+// before. Everything else C16 needs to know about the code (claim set, headers, key selection, algorithm per key
+// size, public JWKs) is observed from the running code by the correspondence check, not read from the source.
 //
 // Only go/ast, go/parser and go/token are used. It fails closed: a shape it does not understand aborts the
 // extraction with exit code 3.
@@ -23,7 +18,6 @@ import (
 	"os"
 	"path/filepath"
 	"sort"
-	"strconv"
 	"strings"
 )
 
@@ -77,9 +71,10 @@ type walker struct {
 	recv    string
 	mutexes map[string]bool
 	fields  map[string]bool
-	methods map[string]bool
+	methods map[string]*ast.FuncDecl
 	events  []string
 	closure int
+	stack   []string // methods being inlined
 }
 
 func (w *walker) emit(format string, args ...any) {
@@ -131,12 +126,12 @@ func (w *walker) expr(x ast.Expr) {
 				w.emit("%s %s", strings.ToLower(parts[1]), parts[0])
 
 				return
-			case len(parts) == 1 && w.methods[parts[0]]:
+			case len(parts) == 1 && w.methods[parts[0]] != nil:
 				for _, a := range v.Args {
 					w.expr(a)
 				}
 
-				w.emit("call %s", parts[0])
+				w.inline(v, parts[0])
 
 				return
 			case len(parts) >= 1 && w.mutexes[parts[0]]:
@@ -161,7 +156,7 @@ func (w *walker) expr(x ast.Expr) {
 				return
 			}
 
-			if w.methods[parts[0]] {
+			if w.methods[parts[0]] != nil {
 				fail(v, "method value of the receiver")
 			}
 
@@ -253,28 +248,13 @@ func (w *walker) stmt(s ast.Stmt) {
 			w.expr(r)
 		}
 
-		for i, l := range v.Lhs {
+		for _, l := range v.Lhs {
 			if parts, ok := w.chain(l); ok && len(parts) >= 1 {
 				if !w.fields[parts[0]] {
 					fail(l, "assignment to unknown member %s", parts[0])
 				}
 
-				rhs := "?"
-				if len(v.Rhs) == len(v.Lhs) {
-					rhs = src(v.Rhs[i])
-				} else if len(v.Rhs) == 1 {
-					rhs = src(v.Rhs[0]) + "#" + strconv.Itoa(i)
-				}
-
-				if len(parts) > 1 {
-					rhs = "(" + strings.Join(parts[1:], ".") + ") " + rhs
-				}
-
-				if v.Tok != token.ASSIGN {
-					rhs = v.Tok.String() + " " + rhs
-				}
-
-				w.emit("write %s <- %s", parts[0], rhs)
+				w.emit("write %s", parts[0])
 
 				continue
 			}
@@ -367,7 +347,7 @@ func (w *walker) stmt(s ast.Stmt) {
 	case *ast.EmptyStmt:
 	case *ast.IncDecStmt:
 		if parts, ok := w.chain(v.X); ok && len(parts) >= 1 {
-			w.emit("write %s <- %s", parts[0], v.Tok.String())
+			w.emit("write %s", parts[0])
 
 			return
 		}
@@ -412,29 +392,43 @@ func (w *walker) stmt(s ast.Stmt) {
 	}
 }
 
-// ---------------------------------------------------------------------------------------------------------------
-// helpers on function bodies
-
-func funcDecl(f *ast.File, recvType, name string) *ast.FuncDecl {
-	for _, d := range f.Decls {
-		fd, ok := d.(*ast.FuncDecl)
-		if !ok || fd.Name.Name != name || fd.Body == nil {
-			continue
-		}
-
-		if recvType == "" && fd.Recv == nil {
-			return fd
-		}
-
-		if fd.Recv != nil && len(fd.Recv.List) == 1 && recvTypeName(fd) == recvType {
-			return fd
+// inline: a call of another method of the receiver contributes that method's events at the call site. Its returns
+// end the callee, not the caller, so they are dropped; an unlock it deferred runs when it returns, i.e. here.
+func (w *walker) inline(call ast.Node, name string) {
+	for _, n := range w.stack {
+		if n == name {
+			fail(call, "recursive call of %s", name)
 		}
 	}
 
-	fail(f, "function %s.%s not found", recvType, name)
+	if w.closure != 0 {
+		fail(call, "receiver method %s called inside a function literal", name)
+	}
 
-	return nil
+	fd := w.methods[name]
+	sub := &walker{recv: recvName(fd), mutexes: w.mutexes, fields: w.fields, methods: w.methods,
+		stack: append(append([]string{}, w.stack...), name)}
+	sub.block(fd.Body.List)
+
+	var deferred []string
+
+	w.emit("enter {")
+
+	for _, ev := range sub.events {
+		switch {
+		case strings.HasPrefix(ev, "defer "):
+			deferred = append([]string{strings.TrimPrefix(ev, "defer ")}, deferred...)
+		case ev == "return" || strings.HasPrefix(ev, "return "):
+		default:
+			w.events = append(w.events, ev)
+		}
+	}
+
+	w.events = append(w.events, deferred...)
+	w.emit("}")
 }
+
+// ---------------------------------------------------------------------------------------------------------------
 
 func recvTypeName(fd *ast.FuncDecl) string {
 	rt := fd.Recv.List[0].Type
@@ -457,471 +451,6 @@ func recvName(fd *ast.FuncDecl) string {
 	return "_"
 }
 
-// every assignment / short variable declaration / range clause of a function body in source order as (lhs, rhs)
-func assignments(fd *ast.FuncDecl) [][2]string {
-	var res [][2]string
-
-	ast.Inspect(fd.Body, func(n ast.Node) bool {
-		switch v := n.(type) {
-		case *ast.AssignStmt:
-			lhs := make([]string, len(v.Lhs))
-			for i, l := range v.Lhs {
-				lhs[i] = src(l)
-			}
-
-			rhs := make([]string, len(v.Rhs))
-			for i, r := range v.Rhs {
-				rhs[i] = src(r)
-			}
-
-			op := ""
-			if v.Tok != token.ASSIGN && v.Tok != token.DEFINE {
-				op = v.Tok.String() + " "
-			}
-
-			res = append(res, [2]string{strings.Join(lhs, ", "), op + strings.Join(rhs, ", ")})
-		case *ast.RangeStmt:
-			res = append(res, [2]string{"range " + src(v.Key) + ", " + src(v.Value), src(v.X)})
-		case *ast.IncDecStmt:
-			res = append(res, [2]string{src(v.X), v.Tok.String()})
-		}
-
-		return true
-	})
-
-	return res
-}
-
-// ---------------------------------------------------------------------------------------------------------------
-// the claim program of Sign
-
-type claimOp struct{ kind, key, val string }
-
-// claimProgram: the variable handed to `.Claims(x)` is the claims map; returns every statement that touches it
-func claimProgram(fd *ast.FuncDecl) (ops []claimOp, params []string) {
-	for _, p := range fd.Type.Params.List {
-		for _, n := range p.Names {
-			params = append(params, n.Name)
-		}
-	}
-
-	claimsVar := ""
-
-	ast.Inspect(fd.Body, func(n ast.Node) bool {
-		call, ok := n.(*ast.CallExpr)
-		if !ok {
-			return true
-		}
-
-		if sel, isSel := call.Fun.(*ast.SelectorExpr); isSel && sel.Sel.Name == "Claims" && len(call.Args) == 1 {
-			if id, isIdent := call.Args[0].(*ast.Ident); isIdent {
-				if claimsVar != "" && claimsVar != id.Name {
-					fail(call, "two different claim sets are serialised")
-				}
-
-				claimsVar = id.Name
-			} else {
-				fail(call, "claims handed to the builder are not a plain variable")
-			}
-		}
-
-		return true
-	})
-
-	if claimsVar == "" {
-		fail(fd, "no .Claims(x) call found in Sign")
-	}
-
-	locals := map[string]string{}
-
-	mentions := func(n ast.Node) bool {
-		found := false
-
-		ast.Inspect(n, func(m ast.Node) bool {
-			if id, ok := m.(*ast.Ident); ok && id.Name == claimsVar {
-				found = true
-			}
-
-			return !found
-		})
-
-		return found
-	}
-
-	// resolve local definitions inside a value expression (one pass per identifier, innermost first)
-	var resolve func(x ast.Expr, depth int) string
-
-	resolve = func(x ast.Expr, depth int) string {
-		if depth > 8 {
-			fail(x, "cyclic local definitions")
-		}
-
-		switch v := x.(type) {
-		case *ast.Ident:
-			if def, ok := locals[v.Name]; ok {
-				return "(" + def + ")"
-			}
-
-			return v.Name
-		case *ast.SelectorExpr:
-			return resolve(v.X, depth+1) + "." + v.Sel.Name
-		case *ast.CallExpr:
-			args := make([]string, len(v.Args))
-			for i, a := range v.Args {
-				args[i] = resolve(a, depth+1)
-			}
-
-			return resolve(v.Fun, depth+1) + "(" + strings.Join(args, ", ") + ")"
-		case *ast.BasicLit:
-			return v.Value
-		case *ast.BinaryExpr:
-			return "(" + resolve(v.X, depth+1) + " " + v.Op.String() + " " + resolve(v.Y, depth+1) + ")"
-		case *ast.ParenExpr:
-			return resolve(v.X, depth+1)
-		case *ast.UnaryExpr:
-			return v.Op.String() + resolve(v.X, depth+1)
-		case *ast.StarExpr:
-			return "*" + resolve(v.X, depth+1)
-		default:
-			return src(x)
-		}
-	}
-
-	var walk func(stmts []ast.Stmt, nested bool)
-
-	walk = func(stmts []ast.Stmt, nested bool) {
-		for _, s := range stmts {
-			switch v := s.(type) {
-			case *ast.AssignStmt:
-				// claims[<lit>] = value
-				if len(v.Lhs) == 1 && len(v.Rhs) == 1 {
-					if ix, ok := v.Lhs[0].(*ast.IndexExpr); ok {
-						if id, isIdent := ix.X.(*ast.Ident); isIdent && id.Name == claimsVar {
-							lit, isLit := ix.Index.(*ast.BasicLit)
-							if !isLit || lit.Kind != token.STRING || v.Tok != token.ASSIGN {
-								fail(v, "claim assignment with a computed key")
-							}
-
-							key, _ := strconv.Unquote(lit.Value)
-							kind := "set"
-							if nested {
-								kind = "condset"
-							}
-
-							ops = append(ops, claimOp{kind, key, resolve(v.Rhs[0], 0)})
-
-							continue
-						}
-					}
-
-					if id, ok := v.Lhs[0].(*ast.Ident); ok {
-						if id.Name == claimsVar {
-							kind := "init"
-							if nested {
-								kind = "condinit"
-							}
-
-							ops = append(ops, claimOp{kind, "", src(v.Rhs[0])})
-
-							continue
-						}
-
-						if v.Tok == token.DEFINE && !mentions(v.Rhs[0]) {
-							locals[id.Name] = resolve(v.Rhs[0], 0)
-
-							continue
-						}
-					}
-				}
-
-				if mentions(v) {
-					for _, l := range v.Lhs {
-						if mentions(l) {
-							fail(v, "unsupported statement touching the claims")
-						}
-					}
-
-					kind := "use"
-					if nested {
-						kind = "conduse"
-					}
-
-					rhs := make([]string, len(v.Rhs))
-					for i, r := range v.Rhs {
-						rhs[i] = src(r)
-					}
-
-					ops = append(ops, claimOp{kind, "", strings.Join(rhs, ", ")})
-				}
-
-				// other definitions: forget what they define
-				for _, l := range v.Lhs {
-					if id, ok := l.(*ast.Ident); ok {
-						delete(locals, id.Name)
-					}
-				}
-			case *ast.ExprStmt:
-				if !mentions(v) {
-					continue
-				}
-
-				call, ok := v.X.(*ast.CallExpr)
-				if !ok {
-					fail(v, "unsupported statement touching the claims")
-				}
-
-				args := make([]string, len(call.Args))
-				for i, a := range call.Args {
-					args[i] = src(a)
-				}
-
-				kind := "call"
-				if nested {
-					kind = "condcall"
-				}
-
-				ops = append(ops, claimOp{kind, src(call.Fun), strings.Join(args, ", ")})
-			case *ast.IfStmt:
-				if v.Init != nil && mentions(v.Init) {
-					walk([]ast.Stmt{v.Init}, nested)
-				}
-
-				walk(v.Body.List, true)
-
-				if v.Else != nil {
-					if b, ok := v.Else.(*ast.BlockStmt); ok {
-						walk(b.List, true)
-					} else {
-						walk([]ast.Stmt{v.Else}, true)
-					}
-				}
-			case *ast.BlockStmt:
-				walk(v.List, nested)
-			case *ast.ReturnStmt, *ast.DeclStmt, *ast.EmptyStmt:
-				if mentions(v) {
-					if _, isRet := v.(*ast.ReturnStmt); !isRet {
-						fail(v, "unsupported statement touching the claims")
-					}
-				}
-			case *ast.RangeStmt, *ast.ForStmt, *ast.SwitchStmt, *ast.DeferStmt, *ast.GoStmt:
-				if mentions(v) {
-					fail(v, "claims touched inside a loop / switch / defer / go statement")
-				}
-			default:
-				if mentions(v) {
-					fail(v, "unsupported statement touching the claims")
-				}
-			}
-		}
-	}
-
-	walk(fd.Body.List, false)
-
-	return ops, params
-}
-
-// ---------------------------------------------------------------------------------------------------------------
-// how Sign configures the JOSE signer
-
-func signerSetup(fd *ast.FuncDecl) [][2]string {
-	var res [][2]string
-
-	ast.Inspect(fd.Body, func(n ast.Node) bool {
-		switch v := n.(type) {
-		case *ast.CompositeLit:
-			if strings.HasSuffix(src(v.Type), "SigningKey") {
-				for _, el := range v.Elts {
-					kv, ok := el.(*ast.KeyValueExpr)
-					if !ok {
-						fail(el, "positional SigningKey literal")
-					}
-
-					res = append(res, [2]string{"SigningKey." + src(kv.Key), src(kv.Value)})
-				}
-			}
-		case *ast.CallExpr:
-			sel, ok := v.Fun.(*ast.SelectorExpr)
-			if !ok {
-				return true
-			}
-
-			switch sel.Sel.Name {
-			case "WithType", "WithContentType", "WithBase64":
-				args := make([]string, len(v.Args))
-				for i, a := range v.Args {
-					args[i] = src(a)
-				}
-
-				res = append(res, [2]string{sel.Sel.Name, strings.Join(args, ", ")})
-			case "WithHeader":
-				if len(v.Args) != 2 {
-					fail(v, "WithHeader arity")
-				}
-
-				res = append(res, [2]string{"WithHeader " + src(v.Args[0]), src(v.Args[1])})
-			}
-		}
-
-		return true
-	})
-
-	sort.Slice(res, func(i, j int) bool { return res[i][0] < res[j][0] })
-
-	return res
-}
-
-// ---------------------------------------------------------------------------------------------------------------
-// keystore.Entry.JWK and the algorithm tables
-
-func jwkLiteral(fd *ast.FuncDecl) [][2]string {
-	if len(fd.Body.List) != 1 {
-		fail(fd, "Entry.JWK is not a single return statement")
-	}
-
-	ret, ok := fd.Body.List[0].(*ast.ReturnStmt)
-	if !ok || len(ret.Results) != 1 {
-		fail(fd, "Entry.JWK is not a single return statement")
-	}
-
-	lit, ok := ret.Results[0].(*ast.CompositeLit)
-	if !ok || !strings.HasSuffix(src(lit.Type), "JSONWebKey") {
-		fail(ret, "Entry.JWK does not return a JSONWebKey literal")
-	}
-
-	var res [][2]string
-
-	for _, el := range lit.Elts {
-		kv, isKV := el.(*ast.KeyValueExpr)
-		if !isKV {
-			fail(el, "positional JSONWebKey literal")
-		}
-
-		res = append(res, [2]string{src(kv.Key), src(kv.Value)})
-	}
-
-	sort.Slice(res, func(i, j int) bool { return res[i][0] < res[j][0] })
-
-	return res
-}
-
-func intConsts(f *ast.File) map[string]string {
-	res := map[string]string{}
-
-	for _, d := range f.Decls {
-		gd, ok := d.(*ast.GenDecl)
-		if !ok || gd.Tok != token.CONST {
-			continue
-		}
-
-		for _, sp := range gd.Specs {
-			vs := sp.(*ast.ValueSpec) //nolint:forcetypeassert
-			for i, n := range vs.Names {
-				if i < len(vs.Values) {
-					if lit, isLit := vs.Values[i].(*ast.BasicLit); isLit {
-						res[n.Name] = lit.Value
-					}
-				}
-			}
-		}
-	}
-
-	return res
-}
-
-// switch <param> { case c: return jose.X ... default: panic } -> (size, alg) pairs in source order
-func sizeTable(fd *ast.FuncDecl, consts map[string]string) [][2]string {
-	if len(fd.Body.List) != 1 {
-		fail(fd, "%s is not a single switch", fd.Name.Name)
-	}
-
-	sw, ok := fd.Body.List[0].(*ast.SwitchStmt)
-	if !ok || sw.Init != nil {
-		fail(fd, "%s is not a single switch", fd.Name.Name)
-	}
-
-	if len(fd.Type.Params.List) != 1 || len(fd.Type.Params.List[0].Names) != 1 ||
-		src(sw.Tag) != fd.Type.Params.List[0].Names[0].Name {
-		fail(sw, "%s does not switch on its parameter", fd.Name.Name)
-	}
-
-	var res [][2]string
-
-	for _, c := range sw.Body.List {
-		cc := c.(*ast.CaseClause) //nolint:forcetypeassert
-		if cc.List == nil {
-			if len(cc.Body) != 1 || !strings.HasPrefix(src(cc.Body[0]), "panic(") {
-				fail(cc, "default case of %s does not panic", fd.Name.Name)
-			}
-
-			res = append(res, [2]string{"default", "panic"})
-
-			continue
-		}
-
-		if len(cc.Body) != 1 {
-			fail(cc, "unsupported case body")
-		}
-
-		ret, isRet := cc.Body[0].(*ast.ReturnStmt)
-		if !isRet || len(ret.Results) != 1 {
-			fail(cc, "unsupported case body")
-		}
-
-		for _, x := range cc.List {
-			val := src(x)
-			if v, known := consts[val]; known {
-				val = v
-			}
-
-			if _, err := strconv.Atoi(val); err != nil {
-				fail(x, "case value %s is not an integer constant", val)
-			}
-
-			res = append(res, [2]string{val, src(ret.Results[0])})
-		}
-	}
-
-	return res
-}
-
-// switch e.Alg { case AlgRSA: return getRSAAlgorithm(e.KeySize) ... }
-func familyTable(fd *ast.FuncDecl) [][2]string {
-	if len(fd.Body.List) != 1 {
-		fail(fd, "JOSEAlgorithm is not a single switch")
-	}
-
-	sw, ok := fd.Body.List[0].(*ast.SwitchStmt)
-	if !ok {
-		fail(fd, "JOSEAlgorithm is not a single switch")
-	}
-
-	res := [][2]string{{"switch", src(sw.Tag)}}
-
-	for _, c := range sw.Body.List {
-		cc := c.(*ast.CaseClause) //nolint:forcetypeassert
-		if len(cc.Body) != 1 {
-			fail(cc, "unsupported case body")
-		}
-
-		body := src(cc.Body[0])
-		if cc.List == nil {
-			if !strings.HasPrefix(body, "panic(") {
-				fail(cc, "default case of JOSEAlgorithm does not panic")
-			}
-
-			res = append(res, [2]string{"default", "panic"})
-
-			continue
-		}
-
-		for _, x := range cc.List {
-			res = append(res, [2]string{src(x), body})
-		}
-	}
-
-	return res
-}
-
 // ---------------------------------------------------------------------------------------------------------------
 
 func q(s string) string {
@@ -941,173 +470,12 @@ func strList(l []string, indent string) string {
 	return "[\n" + strings.Join(parts, ",\n") + "\n" + indent + "]"
 }
 
-func pairList(l [][2]string) string {
-	if len(l) == 0 {
-		return "[]"
-	}
-
-	parts := make([]string, len(l))
-	for i, p := range l {
-		parts[i] = "  (" + q(p[0]) + ", " + q(p[1]) + ")"
-	}
-
-	return "[\n" + strings.Join(parts, ",\n") + "\n]"
-}
-
-// flow: the statements of a small function as text, in source order: "if <cond> {", "}", "else {", "return <results>",
-// "<lhs> = <rhs>"; anything else aborts the extraction
-func flow(fd *ast.FuncDecl) []string {
-	var (
-		res  []string
-		walk func(stmts []ast.Stmt)
-	)
-
-	walk = func(stmts []ast.Stmt) {
-		for _, st := range stmts {
-			switch v := st.(type) {
-			case *ast.IfStmt:
-				if v.Init != nil {
-					walk([]ast.Stmt{v.Init})
-				}
-
-				res = append(res, "if "+src(v.Cond)+" {")
-				walk(v.Body.List)
-				res = append(res, "}")
-
-				if v.Else != nil {
-					res = append(res, "else {")
-
-					if b, ok := v.Else.(*ast.BlockStmt); ok {
-						walk(b.List)
-					} else {
-						walk([]ast.Stmt{v.Else})
-					}
-
-					res = append(res, "}")
-				}
-			case *ast.ReturnStmt:
-				parts := make([]string, len(v.Results))
-				for i, r := range v.Results {
-					parts[i] = src(r)
-				}
-
-				res = append(res, "return "+strings.Join(parts, ", "))
-			case *ast.AssignStmt:
-				lhs := make([]string, len(v.Lhs))
-				for i, l := range v.Lhs {
-					lhs[i] = src(l)
-				}
-
-				rhs := make([]string, len(v.Rhs))
-				for i, r := range v.Rhs {
-					rhs[i] = src(r)
-				}
-
-				res = append(res, strings.Join(lhs, ", ")+" = "+strings.Join(rhs, ", "))
-			case *ast.BlockStmt:
-				walk(v.List)
-			case *ast.EmptyStmt:
-			default:
-				fail(st, "unsupported statement %T in %s", st, fd.Name.Name)
-			}
-		}
-	}
-
-	walk(fd.Body.List)
-
-	return res
-}
-
-// supportTable: CheckJOSESupport is `switch e.Alg { case X: switch e.KeySize { case a, b, c: return nil }; return err
-// ... default: return err }`; returns per family the sizes for which nil is returned
-func supportTable(fd *ast.FuncDecl, consts map[string]string) string {
-	if len(fd.Body.List) != 1 {
-		fail(fd, "CheckJOSESupport is not a single switch")
-	}
-
-	sw, ok := fd.Body.List[0].(*ast.SwitchStmt)
-	if !ok || src(sw.Tag) != "e.Alg" {
-		fail(fd, "CheckJOSESupport does not switch on e.Alg")
-	}
-
-	var parts []string
-
-	for _, c := range sw.Body.List {
-		cc := c.(*ast.CaseClause) //nolint:forcetypeassert
-		if cc.List == nil {
-			if len(cc.Body) != 1 || strings.HasPrefix(src(cc.Body[0]), "return nil") {
-				fail(cc, "default case of CheckJOSESupport does not return an error")
-			}
-
-			continue
-		}
-
-		if len(cc.List) != 1 || len(cc.Body) != 2 {
-			fail(cc, "unsupported case of CheckJOSESupport")
-		}
-
-		inner, isSwitch := cc.Body[0].(*ast.SwitchStmt)
-		if !isSwitch || src(inner.Tag) != "e.KeySize" || strings.HasPrefix(src(cc.Body[1]), "return nil") {
-			fail(cc, "unsupported case of CheckJOSESupport")
-		}
-
-		var sizes []string
-
-		for _, ic := range inner.Body.List {
-			icc := ic.(*ast.CaseClause) //nolint:forcetypeassert
-			if icc.List == nil || len(icc.Body) != 1 || src(icc.Body[0]) != "return nil" {
-				fail(icc, "unsupported size case of CheckJOSESupport")
-			}
-
-			for _, x := range icc.List {
-				val := src(x)
-				if v, known := consts[val]; known {
-					val = v
-				}
-
-				if _, err := strconv.Atoi(val); err != nil {
-					fail(x, "size %s is not an integer constant", val)
-				}
-
-				sizes = append(sizes, val)
-			}
-		}
-
-		parts = append(parts, "("+q(src(cc.List[0]))+", ["+strings.Join(sizes, ", ")+"])")
-	}
-
-	return "[" + strings.Join(parts, ", ") + "]"
-}
-
-// natTable: (size, jose.X) pairs as Lean (Nat × String) list; the default case must be the final panic
-func natTable(t [][2]string) string {
-	if len(t) == 0 || t[len(t)-1] != [2]string{"default", "panic"} {
-		fail(nil, "algorithm table without a panicking default case")
-	}
-
-	parts := []string{}
-
-	for _, p := range t[:len(t)-1] {
-		if p[0] == "default" || !strings.HasPrefix(p[1], "jose.") {
-			fail(nil, "unsupported algorithm table entry %v", p)
-		}
-
-		parts = append(parts, "("+p[0]+", "+q(strings.TrimPrefix(p[1], "jose."))+")")
-	}
-
-	return "[" + strings.Join(parts, ", ") + "]"
-}
-
 func main() {
 	repo := flag.String("repo", "/repo", "heimdall source tree")
 	flag.Parse()
 
-	signerPath := filepath.Join(*repo, "internal/rules/mechanisms/finalizers/jwt_signer.go")
-	entryPath := filepath.Join(*repo, "internal/keystore/entry.go")
-	sf := parse(signerPath)
-	ef := parse(entryPath)
+	sf := parse(filepath.Join(*repo, "internal/rules/mechanisms/finalizers/jwt_signer.go"))
 
-	// --- struct jwtSigner
 	const typ = "jwtSigner"
 
 	mutexes := map[string]bool{}
@@ -1140,11 +508,11 @@ func main() {
 			for _, nm := range fld.Names {
 				if strings.HasSuffix(t, "Mutex") {
 					mutexes[nm.Name] = true
-					fieldOrder = append(fieldOrder, nm.Name+" : "+t)
 				} else {
 					fields[nm.Name] = true
-					fieldOrder = append(fieldOrder, nm.Name+" : "+t)
 				}
+
+				fieldOrder = append(fieldOrder, nm.Name+" : "+t)
 			}
 		}
 
@@ -1155,21 +523,21 @@ func main() {
 		fail(sf, "struct type %s not found", typ)
 	}
 
-	methods := map[string]bool{}
+	methods := map[string]*ast.FuncDecl{}
 
 	var decls []*ast.FuncDecl
 
 	for _, d := range sf.Decls {
 		fd, ok := d.(*ast.FuncDecl)
 		if ok && fd.Recv != nil && len(fd.Recv.List) == 1 && fd.Body != nil && recvTypeName(fd) == typ {
-			methods[fd.Name.Name] = true
+			methods[fd.Name.Name] = fd
 			decls = append(decls, fd)
 		}
 	}
 
 	sort.Slice(decls, func(i, j int) bool { return decls[i].Name.Name < decls[j].Name.Name })
 
-	// other functions of the file that touch a value of the type (constructors): fields set in composite literals only
+	// other functions of the file: assignments to a field of the type (constructors use composite literals)
 	var outside []string
 
 	for _, d := range sf.Decls {
@@ -1193,8 +561,8 @@ func main() {
 
 	var b strings.Builder
 
-	fmt.Fprintf(&b, "-- generated by /verif/extract/signer from internal/rules/mechanisms/finalizers/jwt_signer.go,\n")
-	fmt.Fprintf(&b, "-- internal/keystore/entry.go and internal/keystore/key_store.go of the checked source tree; do not edit\n")
+	fmt.Fprintf(&b, "-- generated by /verif/extract/signer from internal/rules/mechanisms/finalizers/jwt_signer.go of the checked\n")
+	fmt.Fprintf(&b, "-- source tree; do not edit\n")
 	fmt.Fprintf(&b, "namespace Heimdall.Gen.Signer\n\n")
 
 	var mnames []string
@@ -1208,11 +576,11 @@ func main() {
 	fmt.Fprintf(&b, "def fields : List String := %s\n\n", strList(fieldOrder, ""))
 	fmt.Fprintf(&b, "/-- assignments to fields of the signer outside its methods -/\n")
 	fmt.Fprintf(&b, "def outsideWrites : List String := %s\n\n", strList(outside, ""))
-
+	fmt.Fprintf(&b, "/-- per method the synchronisation events in source order; calls of other methods of the signer are inlined -/\n")
 	fmt.Fprintf(&b, "def protocol : List (String × List String) := [\n")
 
 	for i, fd := range decls {
-		w := &walker{recv: recvName(fd), mutexes: mutexes, fields: fields, methods: methods}
+		w := &walker{recv: recvName(fd), mutexes: mutexes, fields: fields, methods: methods, stack: []string{fd.Name.Name}}
 		w.block(fd.Body.List)
 
 		sep := ","
@@ -1223,53 +591,7 @@ func main() {
 		fmt.Fprintf(&b, "  (%s, %s)%s\n", q(fd.Name.Name), strList(w.events, "  "), sep)
 	}
 
-	fmt.Fprintf(&b, "]\n\n")
-
-	// --- Sign
-	sign := funcDecl(sf, typ, "Sign")
-	ops, params := claimProgram(sign)
-
-	fmt.Fprintf(&b, "def signParams : List String := %s\n\n", strList(params, ""))
-	fmt.Fprintf(&b, "def signReceiver : String := %s\n\n", q(recvName(sign)))
-	fmt.Fprintf(&b, "/-- (kind, key / callee, value source / arguments) of every statement of Sign touching the serialised claims -/\n")
-	fmt.Fprintf(&b, "def claimOps : List (String × String × String) := [\n")
-
-	for i, o := range ops {
-		sep := ","
-		if i == len(ops)-1 {
-			sep = ""
-		}
-
-		fmt.Fprintf(&b, "  (%s, %s, %s)%s\n", q(o.kind), q(o.key), q(o.val), sep)
-	}
-
-	fmt.Fprintf(&b, "]\n\n")
-	fmt.Fprintf(&b, "def signerSetup : List (String × String) := %s\n\n", pairList(signerSetup(sign)))
-	fmt.Fprintf(&b, "def signAssignments : List (String × String) := %s\n\n", pairList(assignments(sign)))
-
-	// --- load
-	load := funcDecl(sf, typ, "load")
-	fmt.Fprintf(&b, "def loadAssignments : List (String × String) := %s\n\n", pairList(assignments(load)))
-
-	// --- entry.go
-	consts := intConsts(ef)
-
-	fmt.Fprintf(&b, "def jwkLiteral : List (String × String) := %s\n\n", pairList(jwkLiteral(funcDecl(ef, "Entry", "JWK"))))
-	fmt.Fprintf(&b, "def joseAlgorithm : List (String × String) := %s\n\n",
-		pairList(familyTable(funcDecl(ef, "Entry", "JOSEAlgorithm"))))
-	fmt.Fprintf(&b, "/-- key size -> JOSE algorithm, in source order; every other size panics -/\n")
-	fmt.Fprintf(&b, "def rsaAlgorithms : List (Nat × String) := %s\n\n",
-		natTable(sizeTable(funcDecl(ef, "", "getRSAAlgorithm"), consts)))
-	fmt.Fprintf(&b, "def ecdsaAlgorithms : List (Nat × String) := %s\n\n",
-		natTable(sizeTable(funcDecl(ef, "", "getECDSAAlgorithm"), consts)))
-	fmt.Fprintf(&b, "/-- `Entry.CheckJOSESupport`: per key family the sizes it accepts; everything else is an error -/\n")
-	fmt.Fprintf(&b, "def joseSupport : List (String × List Nat) := %s\n\n",
-		supportTable(funcDecl(ef, "Entry", "CheckJOSESupport"), consts))
-
-	kf := parse(filepath.Join(*repo, "internal/keystore/key_store.go"))
-	fmt.Fprintf(&b, "/-- `keystore.SelectKey`, statement by statement -/\n")
-	fmt.Fprintf(&b, "def selectKey : List String := %s\n\n", strList(flow(funcDecl(kf, "", "SelectKey")), ""))
-	fmt.Fprintf(&b, "end Heimdall.Gen.Signer\n")
+	fmt.Fprintf(&b, "]\n\nend Heimdall.Gen.Signer\n")
 
 	fmt.Print(b.String())
 }
